@@ -455,7 +455,13 @@ def gen_wrapper(draw, g):
             return ["padded", f + draw(st.integers(0, 3)), sub, pat]
         return ["padded", draw(st.integers(10, 12)), ["varint"], pat]
     if o == "aligned":
-        return ["aligned", draw(st.integers(2, 5)), gen_spec(draw, g.child(tail=False)), draw(st.sampled_from([b"\x00", b"\xee"]))]
+        if (g.ints or g.params) and not g.ctxfree and draw(st.booleans()):
+            m = gen_len_expr(draw, g, allow_const=False)     # modulus from the context: values below 2 must be rejected
+            if draw(st.booleans()):
+                m = ["bin", "+", m, ["const", 2]]
+        else:
+            m = draw(st.integers(2, 5))
+        return ["aligned", m, gen_spec(draw, g.child(tail=False)), draw(st.sampled_from([b"\x00", b"\xee"]))]
     if o == "nullterm":
         term = draw(st.sampled_from([b"\x00", b"\x00\x00", b"\xff", b";", b"\r\n"]))
         return ["nullterm", ["gbytes"], term, False, True, True]
